@@ -5,7 +5,7 @@
    S = specification models (C14/Model.v).  All statements hold for every length / width / shape. *)
 From Coq Require Import ZArith QArith Qround List Bool Sorted Permutation.
 Import ListNotations.
-From PV Require Import Generated.Smooth Generated.Rebin C14.Model C14.Proofs C14.ProofsUniq C14.ProofsRebin C14.ProofsMedian C14.ProofsLift.
+From PV Require Import Generated.Smooth Generated.Rebin Generated.Uniq Generated.Median C14.Model C14.Proofs C14.ProofsUniq C14.ProofsRebin C14.ProofsMedian C14.ProofsLift.
 Open Scope Z_scope.
 
 (* ================================================================== smooth *)
@@ -94,6 +94,23 @@ Theorem C14_median_plain : forall xs even,
 Proof. exact median_spec_meaning. Qed.
 Print Assumptions C14_median_plain.
 
+(* median(array, axis=...) on a 2-D array: acts independently on every line along the axis and equals the
+   1-D median (/EVEN behaviour, as the docstring says) of each line *)
+Theorem C14_median_axis_rows : forall x axis, axis <> 0 -> median_axis x axis = map (fun r => median_spec r true) x.
+Proof. exact median_axis_rows. Qed.
+Print Assumptions C14_median_axis_rows.
+Theorem C14_median_axis_columns : forall x,
+  median_axis x 0 = map (fun j => median_spec (column j x) true) (seq 0 (ncols x)).
+Proof. exact median_axis_columns. Qed.
+Print Assumptions C14_median_axis_columns.
+Theorem C14_median_axis_line : forall x,
+  (forall axis k r, axis <> 0 -> nth_error x k = Some r ->
+                    nth_error (median_axis x axis) k = Some (median_spec r true)) /\
+  (forall j, (j < ncols x)%nat -> nth_error (median_axis x 0) j = Some (median_spec (column j x) true)) /\
+  length (median_axis x 0) = ncols x /\ (forall axis, axis <> 0 -> length (median_axis x axis) = length x).
+Proof. exact median_axis_line. Qed.
+Print Assumptions C14_median_axis_line.
+
 (* running median: zero padding of medfilt never visible; M = S for odd 1 <= width <= n *)
 Theorem C14_median_filter1_refines_spec : forall xs width,
   Z.odd width = true -> 1 <= width <= lenZ xs ->
@@ -156,11 +173,19 @@ Print Assumptions C14_sortQ_sorts.
 
 (* ================================================================== uniq *)
 
+(* the comparison as written in uniq.py (GENERATED: uniq_plain_differs / uniq_indexed_differs over the dtype's
+   equality) is the dtype's disequality; roll shift, size test, returned subscripts and the all-equal value are
+   GENERATED too and enter every theorem below through Model.uniq / Model.uniq_indexed *)
+Theorem C14_uniq_generated_comparison :
+  (gneqbZ_plain = neqbZ /\ gneqbZ_indexed = neqbZ) /\ (gneqbQ_plain = neqbQ /\ gneqbQ_indexed = neqbQ).
+Proof. exact (conj gneqbZ_is_ne gneqbQ_is_ne). Qed.
+Print Assumptions C14_uniq_generated_comparison.
+
 (* uniq_spec, integer and float arrays: sorted and non-empty -> the last subscript of every run *)
-Theorem C14_uniq_spec_int : forall l, l <> [] -> is_sortedb Z.leb l = true -> uniq Z neqbZ l = runs_last Z neqbZ l.
+Theorem C14_uniq_spec_int : forall l, l <> [] -> is_sortedb Z.leb l = true -> uniq Z gneqbZ_plain l = runs_last Z neqbZ l.
 Proof. exact uniqZ_spec. Qed.
 Print Assumptions C14_uniq_spec_int.
-Theorem C14_uniq_spec_float : forall l, l <> [] -> is_sortedb Qle_bool l = true -> uniq Q neqbQ l = runs_last Q neqbQ l.
+Theorem C14_uniq_spec_float : forall l, l <> [] -> is_sortedb Qle_bool l = true -> uniq Q gneqbQ_plain l = runs_last Q neqbQ l.
 Proof. exact uniqQ_spec. Qed.
 Print Assumptions C14_uniq_spec_float.
 
@@ -177,42 +202,42 @@ Proof. exact runs_last_increasing. Qed.
 Print Assumptions C14_runs_last_increasing.
 
 (* uniq_constant *)
-Theorem C14_uniq_constant_int : forall l, l <> [] -> all_same neqbZ l = true -> uniq Z neqbZ l = [lenZ l - 1].
+Theorem C14_uniq_constant_int : forall l, l <> [] -> all_same neqbZ l = true -> uniq Z gneqbZ_plain l = [lenZ l - 1].
 Proof. exact uniqZ_constant. Qed.
 Print Assumptions C14_uniq_constant_int.
-Theorem C14_uniq_constant_float : forall l, l <> [] -> all_same neqbQ l = true -> uniq Q neqbQ l = [lenZ l - 1].
+Theorem C14_uniq_constant_float : forall l, l <> [] -> all_same neqbQ l = true -> uniq Q gneqbQ_plain l = [lenZ l - 1].
 Proof. exact uniqQ_constant. Qed.
 Print Assumptions C14_uniq_constant_float.
 
 (* uniq_indexed: x sorted through index -> index[j] for j over the run ends of x[index] ... *)
 Theorem C14_uniq_indexed_int : forall x index,
   index <> [] -> is_sortedb Z.leb (take Z 0 x index) = true -> all_same neqbZ (take Z 0 x index) = false ->
-  uniq_indexed Z neqbZ 0 x index = map (getZ index) (runs_last Z neqbZ (take Z 0 x index)).
+  uniq_indexed Z gneqbZ_indexed 0 x index = map (getZ index) (runs_last Z neqbZ (take Z 0 x index)).
 Proof. exact uniqZ_indexed_nonconstant. Qed.
 Print Assumptions C14_uniq_indexed_int.
 Theorem C14_uniq_indexed_float : forall x index,
   index <> [] -> is_sortedb Qle_bool (take Q 0%Q x index) = true -> all_same neqbQ (take Q 0%Q x index) = false ->
-  uniq_indexed Q neqbQ 0%Q x index = map (getZ index) (runs_last Q neqbQ (take Q 0%Q x index)).
+  uniq_indexed Q gneqbQ_indexed 0%Q x index = map (getZ index) (runs_last Q neqbQ (take Q 0%Q x index)).
 Proof. exact uniqQ_indexed_nonconstant. Qed.
 Print Assumptions C14_uniq_indexed_float.
 (* ... and a constant x[index] gives the single subscript n-1, as IDL's uniq.pro does *)
 Theorem C14_uniq_indexed_constant_int : forall x index,
-  index <> [] -> all_same neqbZ (take Z 0 x index) = true -> uniq_indexed Z neqbZ 0 x index = [lenZ index - 1].
+  index <> [] -> all_same neqbZ (take Z 0 x index) = true -> uniq_indexed Z gneqbZ_indexed 0 x index = [lenZ index - 1].
 Proof. exact uniqZ_indexed_constant. Qed.
 Print Assumptions C14_uniq_indexed_constant_int.
 Theorem C14_uniq_indexed_constant_float : forall x index,
-  index <> [] -> all_same neqbQ (take Q 0%Q x index) = true -> uniq_indexed Q neqbQ 0%Q x index = [lenZ index - 1].
+  index <> [] -> all_same neqbQ (take Q 0%Q x index) = true -> uniq_indexed Q gneqbQ_indexed 0%Q x index = [lenZ index - 1].
 Proof. exact uniqQ_indexed_constant. Qed.
 Print Assumptions C14_uniq_indexed_constant_float.
 (* M = S (the oracle used by the correspondence run) *)
 Theorem C14_uniq_indexed_refines_spec_int : forall x index,
   index <> [] -> is_sortedb Z.leb (take Z 0 x index) = true ->
-  uniq_indexed Z neqbZ 0 x index = uniq_indexed_spec neqbZ 0 x index.
+  uniq_indexed Z gneqbZ_indexed 0 x index = uniq_indexed_spec neqbZ 0 x index.
 Proof. exact uniqZ_indexed. Qed.
 Print Assumptions C14_uniq_indexed_refines_spec_int.
 Theorem C14_uniq_indexed_refines_spec_float : forall x index,
   index <> [] -> is_sortedb Qle_bool (take Q 0%Q x index) = true ->
-  uniq_indexed Q neqbQ 0%Q x index = uniq_indexed_spec neqbQ 0%Q x index.
+  uniq_indexed Q gneqbQ_indexed 0%Q x index = uniq_indexed_spec neqbQ 0%Q x index.
 Proof. exact uniqQ_indexed. Qed.
 Print Assumptions C14_uniq_indexed_refines_spec_float.
 
@@ -327,6 +352,14 @@ Theorem C14_rebin2_columns_then_rows : forall k s (x : list (list Q)) a b c y,
 Proof. exact rebin2_columns_then_rows. Qed.
 Print Assumptions C14_rebin2_columns_then_rows.
 
+(* rebin_axes_commute_in_shape *)
+Theorem C14_rebin_axes_commute_in_shape : forall (T : Type) (o : ops T) s (x : list (list T)) a b c,
+  rect c x -> x <> [] -> 0 <= a -> 0 <= b ->
+  has_shape2 (map (fun row => rebin_axis_spec o s row b) (rebin_axis_spec (ops_lift o) s x a)) a b /\
+  has_shape2 (rebin_axis_spec (ops_lift o) s (map (fun row => rebin_axis_spec o s row b) x) a) a b.
+Proof. exact rebin_axes_commute_in_shape. Qed.
+Print Assumptions C14_rebin_axes_commute_in_shape.
+
 (* ================================================================== non-vacuity *)
 
 Example C14_example_smooth :
@@ -334,7 +367,7 @@ Example C14_example_smooth :
   smooth_width 4 - 1 <= lenZ [1#1; 2#1; 4#1; 8#1]%Q.
 Proof. split; vm_compute; [reflexivity|discriminate]. Qed.
 Example C14_example_uniq :
-  uniq Z neqbZ [1; 1; 1; 1; 2; 2; 3; 3; 5; 5; 6; 7; 9; 11] = [3; 5; 7; 9; 10; 11; 12; 13] /\
+  uniq Z gneqbZ_plain [1; 1; 1; 1; 2; 2; 3; 3; 5; 5; 6; 7; 9; 11] = [3; 5; 7; 9; 10; 11; 12; 13] /\
   is_sortedb Z.leb [1; 1; 1; 1; 2; 2; 3; 3; 5; 5; 6; 7; 9; 11] = true.
 Proof. split; vm_compute; reflexivity. Qed.
 Example C14_example_rebin :
